@@ -18,7 +18,7 @@ RULE = ("ints: 0, +-(10^k-2..10^k+2) for k=0..18, int64 extremes, every permutat
         "of a power of ten, an int64 extreme, a sign, or a batch with >= 2 widths (ints); >= 2 rows or an exponent or >= 16 "
         "digits (floats)")
 EXHAUSTIVE = {"quick": False, "thorough": False}
-MODEL_OPS = {"fmt", "parse", "parse1", "intlists", "splitparse", "fparse"}
+MODEL_OPS = {"fmt", "parse", "parse1", "intlists", "splitparse", "fparse", "column_ints", "parse_missing", "froundtrip"}
 PARALLEL = 0
 ASSUMPTIONS = [
     "int64 arithmetic is modelled as unbounded Int with wrap64 applied to the result (NumPy ops are ring homomorphisms mod 2^64)",
@@ -266,6 +266,51 @@ def cases(tier, rng):
     for _ in range(1500 if big else 40):
         rows = [_float_text(rng) for _ in range(rng.choice([2, 3, 4]))]
         yield {"op": "fbatch", "rows": rows}
+    # ---- overflow-sensitive integers: int32 edge, 10- and 19-character widest entries
+    edge32 = [2 ** 31 - 1, 2 ** 31, 2 ** 31 + 1, 2 ** 32 - 1, 2 ** 32, 4999999999, 9999999999, 10 ** 10 - 2, 10 ** 10, -2 ** 31, -2 ** 31 - 1]
+    for v in edge32:
+        yield {"op": "fmt", "ns": [v]}
+        yield {"op": "parse", "rows": [str(v)]}
+        yield {"op": "column_ints", "rows": [str(abs(v)), "7"]}
+    for _ in range(400 if big else 40):
+        n = rng.choice([1, 2, 3, 6])
+        widest = rng.choice([10, 19, 19, 20, 9, 11])
+        top = rng.choice([I64MAX, 10 ** 18, I64MAX - 1, 10 ** 18 + 1]) if widest >= 19 else rng.randrange(max(2 ** 31 if widest >= 10 else 0, 10 ** (widest - 1)), 10 ** widest)
+        vals = [top] + [rng.choice(edge32 + S) if rng.random() < 0.5 else _rand_int(rng) for _ in range(n)]
+        vals = [abs(v) if v != I64MIN else 0 for v in vals]
+        rng.shuffle(vals)
+        rows = [str(v) for v in vals]
+        if widest == 20:
+            rows[0] = "0" + rows[0].rjust(19, "0")          # leading zeros: 20 characters, value unchanged
+        yield {"op": "column_ints", "rows": rows}
+        yield {"op": "parse", "rows": rows}
+        yield {"op": "fmt", "ns": vals}
+        signed = [(-v if rng.random() < 0.4 else v) for v in vals]
+        yield {"op": "column_ints", "rows": [str(v) for v in signed]}
+    for _ in range(400 if big else 40):
+        rows = [rng.choice(["", ".", _int_text(rng), _int_text(rng)]) for _ in range(rng.choice([1, 2, 3, 6]))]
+        yield {"op": "parse_missing", "rows": rows, "missing": rng.choice([0, -1, 7])}
+    yield {"op": "parse_missing", "rows": [".", "."], "missing": 0}
+    yield {"op": "parse_missing", "rows": ["", ".", ""], "missing": -1}
+    # int64 extremes inside lists and matrices
+    for _ in range(200 if big else 20):
+        k = rng.choice([1, 2, 3])
+        pool = [I64MIN, I64MAX, I64MIN + 1, 10 ** 18, -10 ** 18, 999999999999999, 2 ** 31, 10 ** 10 - 1, 0]
+        mat = [[rng.choice(pool) if rng.random() < 0.5 else _rand_int(rng) for _ in range(k)] for _ in range(rng.choice([1, 2, 4]))]
+        yield {"op": "matrix", "rows": mat}
+        yield {"op": "intlists", "rows": mat, "keep_last": False}
+        yield {"op": "splitparse", "text": ",".join(str(v) for v in mat[0])}
+    # float texts with >= 19 fractional digits (<= 17 significant) and long zero runs
+    for _ in range(300 if big else 30):
+        nd = rng.randint(1, 17)
+        digs = str(rng.randint(1, 9)) + "".join(rng.choice("0123456789") for _ in range(nd - 1))
+        z = rng.randint(max(0, 19 - nd), 30)
+        t = rng.choice(["", "-", "+"]) + rng.choice(["0.", "."]) + "0" * z + digs
+        if rng.random() < 0.3:
+            t += "e" + str(rng.randint(-250, 250))
+        yield {"op": "fparse", "rows": [t, "1.5"]}
+        t2 = digs + "0" * rng.randint(3, 25) + rng.choice(["", ".", ".0"])
+        yield {"op": "fparse", "rows": [t2]}
     # ---- columns of files (delimited buffer: int, float and List[int] columns)
     for _ in range(1000 if big else 30):
         n = rng.choice([1, 2, 3, 6])
@@ -283,8 +328,12 @@ def nontrivial(c):
         ns = [v for r in c["rows"] for v in r]
     elif op == "column":
         ns = c["ints"]
-    elif op in ("parse", "splitparse", "parse1"):
-        rows = c["rows"] if op == "parse" else (c["text"].split(",") if op == "splitparse" else [c["s"]])
+    elif op == "matrix":
+        ns = [v for r in c["rows"] for v in r]
+    elif op == "parse_missing":
+        return any(r in ("", ".") for r in c["rows"]) and any(r not in ("", ".") for r in c["rows"])
+    elif op in ("parse", "splitparse", "parse1", "column_ints"):
+        rows = c["rows"] if op in ("parse", "column_ints") else (c["text"].split(",") if op == "splitparse" else [c["s"]])
         try:
             ns = [int(r) for r in rows]
         except ValueError:
@@ -345,6 +394,30 @@ def _column_impl(c):
             "l": [[int(v) for v in r] for r in back.l]}
 
 
+_INTBUF = None
+
+
+def _column_ints_impl(c):
+    """an integer column read through a DelimitedBuffer (fixed-width digit matrix, or the ragged path when signed)"""
+    global _INTBUF
+    if _INTBUF is None:
+        from bionumpy.bnpdataclass import bnpdataclass
+        from bionumpy.io.delimited_buffers import DelimitedBuffer
+
+        @bnpdataclass
+        class IntRow:
+            a: int
+            s: str
+
+        class IntRowBuffer(DelimitedBuffer):
+            dataclass = IntRow
+
+        _INTBUF = IntRowBuffer
+    text = "".join(t + "\tz\n" for t in c["rows"])
+    buf = _INTBUF.from_raw_buffer(np.frombuffer(text.encode("ascii"), dtype=np.uint8).copy())
+    return [int(v) for v in buf.get_data().a]
+
+
 def impl(c):
     st = _strops()
     _, Err = _bnp()
@@ -365,6 +438,16 @@ def impl(c):
         if op == "splitparse":
             from bionumpy.encoded_array import as_encoded_array
             return [int(v) for v in st.str_to_int(st.split(as_encoded_array(c["text"]), sep=","))]
+        if op == "column_ints":
+            return _column_ints_impl(c)
+        if op == "parse_missing":
+            return [int(v) for v in st.str_to_int_with_missing(c["rows"], c["missing"])]
+        if op == "matrix":
+            from bionumpy.io.matrix_dump import matrix_to_csv, parse_matrix
+            m = np.array(c["rows"], dtype=np.int64)
+            text = matrix_to_csv(m, header=["c%d" % i for i in range(m.shape[1])]).to_string()
+            back = parse_matrix(text, field_type=int, rowname_type=None, sep=",")
+            return {"text": text, "back": [[int(v) for v in r] for r in back.data]}
         if op == "fparse":
             return [f2h(v) for v in st.str_to_float(c["rows"])]
         if op == "froundtrip":
@@ -372,7 +455,7 @@ def impl(c):
             texts = st.float_to_strings(xs)
             back = st.str_to_float(texts)
             return {"text_ok": [bool(float(t) == x) or (math.isnan(x) and math.isnan(float(t))) for t, x in zip(_rows(texts), xs)],
-                    "back": [f2h(v) for v in back]}
+                    "back": [f2h(v) for v in back], "texts": _rows(texts)}
         if op == "fbatch":
             whole = [f2h(v) for v in st.str_to_float(list(c["rows"]))]
             alone = [f2h(st.str_to_float([r])[0]) for r in c["rows"]]
@@ -383,6 +466,8 @@ def impl(c):
     except Err:
         return {"err": "encoding"}
     except Exception as e:
+        if type(e).__name__ == "FormatException":
+            return {"err": "encoding"}
         return {"err": "other:" + type(e).__name__}
 
 
@@ -402,8 +487,25 @@ def oracle(c):
         if not c["ns"] or any(not (I64MIN <= n <= I64MAX) for n in c["ns"]):
             return SKIP
         return [str(n) for n in c["ns"]]
-    if op in ("parse", "splitparse", "parse1"):
-        rows = c["rows"] if op == "parse" else (c["text"].split(",") if op == "splitparse" else [c["s"]])
+    if op == "parse_missing":
+        out = []
+        for t in c["rows"]:
+            if t in ("", "."):
+                out.append(c["missing"])
+            else:
+                v = _int_text_value(t)
+                if v is None or not (I64MIN <= v <= I64MAX):
+                    return SKIP
+                out.append(v)
+        return out
+    if op == "matrix":
+        if not c["rows"] or any(not (I64MIN <= v <= I64MAX) for r in c["rows"] for v in r):
+            return SKIP
+        k = len(c["rows"][0])
+        head = ",".join("c%d" % i for i in range(k)) + "\n"
+        return {"text": head + "".join(",".join(str(v) for v in r) + "\n" for r in c["rows"]), "back": c["rows"]}
+    if op in ("parse", "splitparse", "parse1", "column_ints"):
+        rows = c["rows"] if op in ("parse", "column_ints") else (c["text"].split(",") if op == "splitparse" else [c["s"]])
         vals = [_int_text_value(t) for t in rows]
         if not rows or any(v is None or not (I64MIN <= v <= I64MAX) for v in vals):
             return SKIP
@@ -424,7 +526,7 @@ def oracle(c):
             return SKIP   # overflow / subnormal results: "units in the last place" is not meaningful there
         return ds
     if op == "froundtrip":
-        return {"text_ok": [True] * len(c["xs"]), "back": list(c["xs"])}
+        return {"text_ok": [True] * len(c["xs"]), "back": list(c["xs"]), "texts": [repr(float.fromhex(h)) for h in c["xs"]]}
     if op == "fbatch":
         if any(parse_float_text(t) is None for t in c["rows"]):
             return SKIP
@@ -466,10 +568,33 @@ def agree(c, got, exp):
     return core.canon(got) == core.canon(exp)
 
 
+def _decs_denote(decs, xs):
+    """every exact decimal, correctly rounded, IS the double (the logic-level round trip)"""
+    return (isinstance(decs, list) and len(decs) == len(xs)
+            and all(d is not None and f2h(dec_to_float(d)) == f2h(float.fromhex(h)) for d, h in zip(decs, xs)))
+
+
 def agree_model(c, got, m):
     if c["op"] == "fparse":
         return _float_rows_ok(got, m)
+    if c["op"] == "froundtrip":
+        # the model parses the text the implementation produced; its exact decimal must round to the double, and
+        # the implementation's own result must be within the ulp tolerance of it
+        return (isinstance(got, dict) and got.get("texts") == [repr(float.fromhex(h)) for h in c["xs"]]
+                and _decs_denote(m, c["xs"]) and _float_rows_ok(got["back"], m))
     return core.canon(got) == core.canon(m)
+
+
+def agree_spec(c, s, exp):
+    if c["op"] == "froundtrip":
+        return _decs_denote(s, c["xs"])
+    return core.canon(s) == core.canon(exp)
+
+
+def model_request(c):
+    if c["op"] == "froundtrip":
+        return {"op": "fparse", "rows": [repr(float.fromhex(h)) for h in c["xs"]]}
+    return c
 
 
 def finding_key(c, got, exp):
